@@ -2,6 +2,7 @@ package main
 
 import (
 	"fmt"
+	"go/constant"
 	"go/token"
 	"go/types"
 	"os"
@@ -108,6 +109,11 @@ func (e *Enc) callWith(fr *Frame, c *ssa.CallCommon, site ssa.Instruction, st *S
 	}
 	fn := callee.Clo.Fn
 	key := fnKey(fn)
+	if key == "fmt.Sprintf" {
+		if r, ok := e.sprintfConcat(fr, c, args); ok {
+			return r, st, rb
+		}
+	}
 	e.terminationOb(fr, fn, args, st, rb, site)
 	if ct := e.w.ct.Funcs[key]; ct != nil && !ct.Inline {
 		return e.applyContract(fr, ct, key, fn.Signature, args, false, st, rb, site, resType)
@@ -932,6 +938,10 @@ func (e *Enc) loopModSet(fr *Frame, body map[*ssa.BasicBlock]bool) func(string) 
 			scanCall(&x.Call, depth)
 		case *ssa.Defer:
 			scanCall(&x.Call, depth)
+		case *ssa.Next:
+			if fr.top != nil && fr.top.contract != nil && fr.top.contract.UsesMapNext && depth == 0 {
+				logs = append(logs, "mapnext")
+			}
 		case *ssa.Go, *ssa.Send, *ssa.Select:
 			all = true
 			allRepo = true
@@ -1166,7 +1176,15 @@ func (e *Enc) callAsserts(fr *Frame, short string, n int, args []Val, st *State,
 		return
 	}
 	for k, ca := range fr.contract.Asserts {
-		if ca.Kind == "call" && ca.N == n && strings.HasSuffix(short, sanitize(ca.Callee)) {
+		if ca.Kind != "call" || !strings.HasSuffix(short, sanitize(ca.Callee)) {
+			continue
+		}
+		// #n counts the call sites of the callee in source order (not in the order the blocks happen
+		// to be visited)
+		if ord := e.siteOrdinal(fr.fn, site, ca.Callee); ord > 0 {
+			n = ord
+		}
+		if ca.N == n {
 			henv := e.hostEnv(fr)
 			for i, a := range args {
 				henv.vars[fmt.Sprintf("callarg%d", i)] = a
@@ -1192,4 +1210,137 @@ func (e *Enc) countCall(fr *Frame, key string, args []Val, st *State, rb Term, s
 	short := shortKey(key)
 	fr.top.callN["call@"+short]++
 	e.callAsserts(fr, short, fr.top.callN["call@"+short], args, st, rb, site)
+}
+
+// sprintfConcat: fmt.Sprintf with a constant format made of literal text and %s verbs only, applied
+// to string-typed arguments, is string concatenation.
+func (e *Enc) sprintfConcat(fr *Frame, c *ssa.CallCommon, args []Val) (Val, bool) {
+	if len(c.Args) != 2 {
+		return Val{}, false
+	}
+	fc, ok := c.Args[0].(*ssa.Const)
+	if !ok || fc.Value == nil || fc.Value.Kind() != constant.String {
+		return Val{}, false
+	}
+	format := constant.StringVal(fc.Value)
+	// the variadic slice: a Slice of an Alloc'd array whose elements are MakeInterface(string)
+	sl, ok := c.Args[1].(*ssa.Slice)
+	if !ok {
+		return Val{}, false
+	}
+	al, ok := sl.X.(*ssa.Alloc)
+	if !ok {
+		return Val{}, false
+	}
+	at, ok := al.Type().(*types.Pointer).Elem().Underlying().(*types.Array)
+	if !ok {
+		return Val{}, false
+	}
+	elems := make([]ssa.Value, at.Len())
+	for _, ref := range *al.Referrers() {
+		ia, ok := ref.(*ssa.IndexAddr)
+		if !ok {
+			continue
+		}
+		ic, ok := ia.Index.(*ssa.Const)
+		if !ok {
+			return Val{}, false
+		}
+		for _, r2 := range *ia.Referrers() {
+			if st, ok := r2.(*ssa.Store); ok {
+				if mi, ok := st.Val.(*ssa.MakeInterface); ok {
+					if i := int(ic.Int64()); i >= 0 && i < len(elems) {
+						elems[i] = mi.X
+					}
+				}
+			}
+		}
+	}
+	var parts []string
+	lit := ""
+	argi := 0
+	for i := 0; i < len(format); i++ {
+		if format[i] != '%' {
+			lit += string(format[i])
+			continue
+		}
+		if i+1 >= len(format) {
+			return Val{}, false
+		}
+		switch format[i+1] {
+		case '%':
+			lit += "%"
+		case 's':
+			if argi >= len(elems) || elems[argi] == nil {
+				return Val{}, false
+			}
+			b, ok := elems[argi].Type().Underlying().(*types.Basic)
+			if !ok || b.Info()&types.IsString == 0 {
+				return Val{}, false
+			}
+			if lit != "" {
+				parts = append(parts, strLit(lit))
+				lit = ""
+			}
+			parts = append(parts, e.value(fr, elems[argi]).T)
+			argi++
+		default:
+			return Val{}, false
+		}
+		i++
+	}
+	if argi != len(elems) {
+		return Val{}, false
+	}
+	if lit != "" {
+		parts = append(parts, strLit(lit))
+	}
+	switch len(parts) {
+	case 0:
+		return Val{T: "\"\"", Typ: types.Typ[types.String]}, true
+	case 1:
+		return Val{T: parts[0], Typ: types.Typ[types.String]}, true
+	}
+	return Val{T: "(str.++ " + strings.Join(parts, " ") + ")", Typ: types.Typ[types.String]}, true
+}
+
+// siteOrdinal: position (1-based) of the call instruction among the call sites of fn whose callee
+// name ends in the given pattern, ordered by source position. 0 if the site is not one of them.
+func (e *Enc) siteOrdinal(fn *ssa.Function, site ssa.Instruction, pattern string) int {
+	if site == nil || fn == nil {
+		return 0
+	}
+	type rec struct {
+		pos token.Pos
+		in  ssa.Instruction
+	}
+	var sites []rec
+	pat := sanitize(pattern)
+	for _, b := range fn.Blocks {
+		for _, in := range b.Instrs {
+			ci, ok := in.(ssa.CallInstruction)
+			if !ok {
+				continue
+			}
+			cc := ci.Common()
+			key := ""
+			if cc.IsInvoke() {
+				key = ifaceMethodKey(cc.Value.Type(), cc.Method)
+			} else if f := cc.StaticCallee(); f != nil {
+				key = fnKey(f)
+			} else {
+				continue
+			}
+			if strings.HasSuffix(shortKey(key), pat) {
+				sites = append(sites, rec{in.Pos(), in})
+			}
+		}
+	}
+	sort.SliceStable(sites, func(i, j int) bool { return sites[i].pos < sites[j].pos })
+	for i, r := range sites {
+		if r.in == site {
+			return i + 1
+		}
+	}
+	return 0
 }
